@@ -69,6 +69,13 @@ func c09FS(conv c09Conv) (*FS, string) {
 	}
 	subs := verifChoice("subs", verifParam("SUBS")+1)
 	root := ""
+	orig := fs
+	origRoot, _ := orig.toOSPath(conv.goos, conv.sep, "op", ".")
+	defer func() {
+		// taking a Sub view must not re-root the FS it was taken from
+		after, _ := orig.toOSPath(conv.goos, conv.sep, "op", ".")
+		verifAssert(after == origRoot, "Sub changed the root of the parent FS")
+	}()
 	for i := 0; i < subs; i++ {
 		dir := c09String(verifName("dir", i), verifParam("DIRLEN"))
 		verifAssume(hackpadfs.ValidPath(dir))
